@@ -275,7 +275,17 @@ def r02f(ctx):
         ctx.obs.append(o)
 
 
+def r02g(ctx):
+    """Reciprocity of the layered tracer rests on Snell's invariant n sin(theta) being carried across every boundary with the index at the
+    point where the angle was measured: the same obligation as C18's R18e, evaluated here under C02's name."""
+    from . import c18
+    from ._cross import relay
+    relay(ctx, "R02g", "layered tracer: Snell's invariant is carried across a boundary with the index at the start of the layer (= R18e): forward and reversed chains then agree",
+          "C18", c18.r18e, "R18e", kind="N")
+
+
 def run(ctx):
+    ctx.guard(r02g)
     ctx.guard(r02e)
     ctx.guard(r02f)
     ctx.guard(r02a)
